@@ -1,4 +1,6 @@
 //! Native reproducer for finding F-index-3 of vx/batches/index.py (clause `[C17:find-zero-id-absent]` of
+//! STATUS: fixed in /repo commit 9360055 (`if self.slot_count == 0 || id == 0 { return None; }`); on the fixed tree this prints `ok`.
+//!
 //! `read::index::UnitIndex::find`).
 //!
 //! C17: accelerated lookups "each return exactly the entries present".  In a package index an all-zero signature marks an
